@@ -44,6 +44,69 @@ const fn clamp_pct(x: u8) -> u8 {
     }
 }
 
+#[derive(Debug, Clone, PartialEq)]
+pub enum WordError {
+    Empty,
+    HasSpace,
+}
+impl std::fmt::Display for WordError {
+    fn fmt(&self, f: &mut std::fmt::Formatter<'_>) -> std::fmt::Result {
+        write!(f, "{self:?}")
+    }
+}
+impl std::error::Error for WordError {}
+fn validate_word(s: &str) -> Result<(), WordError> {
+    if s.is_empty() {
+        Err(WordError::Empty)
+    } else if s.contains(' ') {
+        Err(WordError::HasSpace)
+    } else {
+        Ok(())
+    }
+}
+#[derive(Debug, Clone, PartialEq)]
+pub struct EchoError(pub String);
+impl std::fmt::Display for EchoError {
+    fn fmt(&self, f: &mut std::fmt::Formatter<'_>) -> std::fmt::Result {
+        // Echoes the rejected value: error texts of arbitrary length and content.
+        write!(f, "invalid value: {}", self.0)
+    }
+}
+impl std::error::Error for EchoError {}
+fn validate_echo(s: &str) -> Result<(), EchoError> {
+    if s.contains('!') || s.chars().count() > 150 {
+        Err(EchoError(s.to_string()))
+    } else {
+        Ok(())
+    }
+}
+fn gen_long_text(r: &mut Rng) -> String {
+    let n = match r.below(5) {
+        0 => r.range_usize(0, 8),
+        1 => r.range_usize(100, 140),
+        _ => r.range_usize(20, 220),
+    };
+    let alphabet: &[char] = match r.below(4) {
+        0 => &['a', 'b', '!'],
+        1 => &['語', 'é', 'a', '!'],
+        2 => &['😀', 'ß', 'x'],
+        _ => &['語'],
+    };
+    let mut cs: Vec<char> = (0..n).map(|_| *r.pick(alphabet)).collect();
+    if r.chance(1, 2) {
+        let at = r.usize_below(cs.len() + 1);
+        cs.insert(at, '!');
+    }
+    cs.into_iter().collect()
+}
+fn validate_point(p: &Point) -> Result<(), WordError> {
+    if p.x == p.y {
+        Err(WordError::Empty)
+    } else {
+        Ok(())
+    }
+}
+
 #[derive(Debug, Clone, PartialEq, Serialize, Deserialize)]
 pub struct Point {
     pub x: i32,
@@ -220,6 +283,30 @@ decls! {
     gen = |r| gen_int(r, -3, 3, -32768, 32767) as i16;
     corpus = vec![0, -32768, 32767];
 
+    #[nutype(validate(greater = 1, less_or_equal = u128::MAX - 1), derive(Debug, Clone, Serialize, Deserialize))]
+    struct U128Mid(u128);
+    family = "integer"; validated = true; core = false;
+    gen = |r| match r.below(6) { 0 => 0, 1 => 1, 2 => 2, 3 => u128::MAX, 4 => u128::MAX - 1, _ => (r.next_u64() as u128) << (r.below(64) as u32) };
+    corpus = vec![0, 1, 2, u128::MAX - 1, u128::MAX, 1 << 64];
+
+    #[nutype(validate(greater = -5), derive(Debug, Clone, Serialize, Deserialize))]
+    struct IsizeGt(isize);
+    family = "integer"; validated = true; core = false;
+    gen = |r| gen_int(r, -4, 100, isize::MIN as i128, isize::MAX as i128) as isize;
+    corpus = vec![-5, -4, -6, isize::MIN, isize::MAX];
+
+    #[nutype(sanitize(with = |x: i16| x.clamp(-10, 10)), validate(greater_or_equal = -10, less_or_equal = 10), derive(Debug, Clone, Serialize, Deserialize))]
+    struct ClampLeI16(i16);
+    family = "integer"; validated = true; core = false;
+    gen = |r| gen_int(r, -10, 10, -32768, 32767) as i16;
+    corpus = vec![0, 10, 11, -11, 32767, -32768];
+
+    #[nutype(sanitize(with = |x: u8| x.wrapping_mul(2)), validate(less = 100), derive(Debug, Clone, Serialize, Deserialize))]
+    struct DoubleU8(u8);
+    family = "integer"; validated = true; core = false;
+    gen = |r| gen_int(r, 0, 60, 0, 255) as u8;
+    corpus = vec![0, 49, 50, 60, 128, 200, 255];
+
     // ------------------------------------------------------------------ floats
     #[nutype(validate(finite), derive(Debug, Clone, PartialEq, Eq, PartialOrd, Ord, Serialize, Deserialize))]
     struct FiniteF64(f64);
@@ -256,6 +343,24 @@ decls! {
     family = "float"; validated = true; core = false;
     gen = |r| gen_f64(r, -1.0, 1.0);
     corpus = vec![-1.0, 1.0, 0.9999999999999999, -1.0000000000000002, -0.0, f64::NAN];
+
+    #[nutype(validate(predicate = |x| x.fract() == 0.0), derive(Debug, Clone, Serialize, Deserialize))]
+    struct WholeF64(f64);
+    family = "float"; validated = true; core = false;
+    gen = |r| if r.chance(1, 2) { gen_f64(r, -8.0, 8.0).round() } else { gen_f64(r, -8.0, 8.0) };
+    corpus = vec![0.0, -0.0, 1.0, 1.5, 9007199254740992.0, f64::NAN, f64::INFINITY];
+
+    #[nutype(sanitize(with = |x: f32| x.clamp(-1.0, 1.0)), validate(greater_or_equal = -1.0, less_or_equal = 1.0), derive(Debug, Clone, Serialize, Deserialize))]
+    struct ClampLeF32(f32);
+    family = "float"; validated = true; core = false;
+    gen = |r| gen_f32(r, -1.0, 1.0);
+    corpus = vec![0.0, 1.0, 1.0000001, 2.0, -2.0, f32::INFINITY, f32::NAN];
+
+    #[nutype(sanitize(with = |x: f64| x * 100.0), validate(less_or_equal = 100.0), derive(Debug, Clone, Serialize, Deserialize))]
+    struct ScaleF64(f64);
+    family = "float"; validated = true; core = false;
+    gen = |r| gen_f64(r, 0.0, 2.0);
+    corpus = vec![0.0, 1.0, 1.5, 1.0000000000000002, -3.0, 150.0];
 
     // ------------------------------------------------------------------ strings
     #[nutype(sanitize(trim), validate(not_empty, len_char_max = 8), derive(Debug, Clone, PartialEq, Eq, PartialOrd, Ord, Serialize, Deserialize))]
@@ -332,6 +437,18 @@ decls! {
     gen = |r| gen_string(r, 4);
     corpus = vec![s(""), s("x"), s("<x>")];
 
+    #[nutype(sanitize(trim), validate(with = validate_word, error = WordError), derive(Debug, Clone, Serialize, Deserialize))]
+    struct Word(String);
+    family = "string"; validated = true; core = false;
+    gen = |r| gen_string(r, 5);
+    corpus = vec![s("a"), s(" a "), s(""), s("  "), s("a b")];
+
+    #[nutype(validate(with = validate_echo, error = EchoError), derive(Debug, Clone, Serialize, Deserialize))]
+    struct Echo(String);
+    family = "string"; validated = true; core = false;
+    gen = |r| gen_long_text(r);
+    corpus = vec![s("ok"), s("no!"), "語".repeat(100), format!("{}!", "語".repeat(60)), format!("!{}", "é".repeat(70))];
+
     // ------------------------------------------------------------------ other inner types
     #[nutype(validate(predicate = |p| p.x <= p.y), derive(Debug, Clone, Serialize, Deserialize))]
     struct OrderedPoint(Point);
@@ -356,6 +473,12 @@ decls! {
     family = "other"; validated = true; core = false;
     gen = |r| (r.below(256) as u8, gen_string(r, 3));
     corpus = vec![(0, s("a")), (255, s(" a ")), (3, s("  ")), (4, s(""))];
+
+    #[nutype(validate(with = validate_point, error = WordError), derive(Debug, Clone, Serialize, Deserialize))]
+    struct OffDiagonal(Point);
+    family = "other"; validated = true; core = false;
+    gen = |r| Point { x: gen_int(r, -2, 2, -9, 9) as i32, y: gen_int(r, -2, 2, -9, 9) as i32 };
+    corpus = vec![Point { x: 0, y: 0 }, Point { x: 1, y: 0 }, Point { x: -9, y: 9 }];
 
     #[nutype(validate(predicate = |c| c.is_alphabetic()), derive(Debug, Clone, Serialize, Deserialize))]
     struct Letter(char);
@@ -384,6 +507,14 @@ pub struct Sorted<T: Ord>(Vec<T>);
 )]
 pub struct CowStr<'a>(Cow<'a, str>);
 
+/// Two type parameters.
+#[nutype(
+    sanitize(with = |p| p),
+    validate(predicate = |p| p.0 != p.1),
+    derive(Debug, Clone, Serialize, Deserialize)
+)]
+pub struct Distinct<A: PartialEq<B>, B>((A, B));
+
 /// A newtype over a newtype: both constructors must run.
 #[nutype(
     validate(predicate = |t| *t.as_ref() != 15),
@@ -405,6 +536,8 @@ pub mod twin_special {
     pub struct Sorted<T>(pub Vec<T>);
     #[derive(Serialize, Deserialize, Debug)]
     pub struct CowStr<'a>(pub Cow<'a, str>);
+    #[derive(Serialize, Deserialize, Debug)]
+    pub struct Distinct<A, B>(pub (A, B));
     #[derive(Serialize, Deserialize, Debug, Clone)]
     pub struct TeenRef(pub u8);
     #[derive(Serialize, Deserialize, Debug)]
@@ -573,7 +706,48 @@ impl Decl for NotFifteen {
     }
 }
 
-pub const SPECIAL_DECLS: &[(&str, bool)] = &[("NonEmptyVec", true), ("Sorted", false), ("CowStr", false), ("NotFifteen", true)];
+impl Decl for Distinct<u8, u8> {
+    type Inner = (u8, u8);
+    type TwinInner = (u8, u8);
+    type Twin = twin_special::Distinct<u8, u8>;
+    const NAME: &'static str = "Distinct";
+    const TEXT: &'static str = "sanitize(with = |p| p), validate(predicate = |p| p.0 != p.1), derive(Debug, Clone, Serialize, Deserialize)  // struct Distinct<A: PartialEq<B>, B>((A, B)), A = B = u8";
+    const FAMILY: &'static str = "other";
+    const HAS_VALIDATION: bool = true;
+    fn construct(raw: (u8, u8)) -> Result<Self, String> {
+        Distinct::try_new(raw).map_err(|e| format!("{e:?}"))
+    }
+    fn into_inner(self) -> (u8, u8) {
+        Distinct::into_inner(self)
+    }
+    fn inner_ref_repr(&self) -> String {
+        Repr::repr(&self.clone().into_inner())
+    }
+    fn lift(t: (u8, u8)) -> Result<(u8, u8), String> {
+        Ok(t)
+    }
+    fn lower(i: &(u8, u8)) -> (u8, u8) {
+        *i
+    }
+    fn twin_wrap(raw: (u8, u8)) -> Self::Twin {
+        twin_special::Distinct(raw)
+    }
+    fn twin_unwrap(t: Self::Twin) -> (u8, u8) {
+        t.0
+    }
+    fn repr(inner: &(u8, u8)) -> String {
+        Repr::repr(inner)
+    }
+    fn gen(rng: &mut Rng) -> (u8, u8) {
+        let a = rng.below(4) as u8;
+        (a, if rng.chance(1, 3) { a } else { rng.below(256) as u8 })
+    }
+    fn corpus() -> Vec<(u8, u8)> {
+        vec![(0, 0), (0, 1), (255, 255), (255, 0)]
+    }
+}
+
+pub const SPECIAL_DECLS: &[(&str, bool)] = &[("NonEmptyVec", true), ("Sorted", false), ("CowStr", false), ("NotFifteen", true), ("Distinct", false)];
 
 pub fn n_decls() -> usize {
     SIMPLE_DECLS.len() + SPECIAL_DECLS.len()
@@ -609,6 +783,7 @@ pub fn with_decl<V: DeclVisitor>(idx: usize, v: V) -> V::Out {
         1 => v.visit::<Sorted<String>>(false),
         2 => v.visit::<CowStr<'static>>(false),
         3 => v.visit::<NotFifteen>(true),
+        4 => v.visit::<Distinct<u8, u8>>(false),
         _ => unreachable!("declaration index out of range"),
     }
 }
